@@ -114,7 +114,7 @@ def mkarg(spec):
     if kind == 'tuple':
         return tuple(spec[1])
     if kind == 'range':
-        return range(spec[1], spec[2])
+        return range(*spec[1:])           # ['range', start, stop] or ['range', start, stop, step]
     raise ValueError(spec)
 
 
@@ -125,7 +125,7 @@ def arglist(spec, m):
     if spec[0] == 'int':
         return [spec[1]]
     if spec[0] == 'range':
-        return list(range(spec[1], spec[2]))
+        return list(range(*spec[1:]))
     return list(spec[1])
 
 
@@ -618,6 +618,7 @@ def gen_output_ops(m, t, rng, exhaustive, nsample, stypes):
     subs = subsets(m)
     if not exhaustive:
         subs = rng.sample(subs, min(nsample, len(subs))) + [[], list(range(m))]
+        subs += [r for r in (list(range(0, m, 2)), list(range(1, m, 2))) if len(r) >= 2 and r not in subs]
     ths = sorted(set(range(t, 2 * t + 1)))
     for R in subs:
         for st in stypes:
@@ -629,6 +630,11 @@ def gen_output_ops(m, t, rng, exhaustive, nsample, stypes):
                       'n': rng.choice([None, None, 2, 3])}
                 if len(R2) == 1 and rng.random() < 0.5:
                     op['receivers'] = ['int', R2[0]]
+                Rs = sorted(R)
+                if len(Rs) >= 2 and len({b - a for a, b in zip(Rs, Rs[1:])}) == 1 and rng.random() < 0.7:
+                    # an arithmetic progression given as a Python range (contiguous or STEPPED), or as a tuple
+                    step = Rs[1] - Rs[0]
+                    op['receivers'] = ['range', Rs[0], Rs[-1] + 1, step] if rng.random() < 0.8 else ['tuple', Rs]
                 if R2 == list(range(m)) and rng.random() < 0.5:
                     del op['receivers']
                 if th == t and rng.random() < 0.5:
